@@ -11,6 +11,7 @@
 From Coq Require Import ZArith List Bool.
 From Model Require Import Bits Word Instr Sim.
 From Proofs Require Import SimStrict SimInit.
+From Proofs Require Import SimNoPanic SimStrictRun.
 Open Scope Z_scope.
 
 Theorem C14_strict_only_adds_strict_errors : forall e s,
@@ -36,6 +37,21 @@ Print Assumptions C14_strict_error_kinds.
 Theorem C14_exec_simulation : forall e i s, Rel (exec e i) (exec e i) s.
 Proof. exact rel_exec. Qed.
 Print Assumptions C14_exec_simulation.
+
+(* over runs: a run of a strict machine in which no step reports a strict error is, step for step, the run of
+   the same machine with strict mode off — same outcomes, same states up to the flag; and up to the first
+   strict error the prefix is simulated *)
+Theorem C14_run_simulation : forall es s,
+  existsb strict_out (snd (run_n es s)) = false ->
+  run_n es (unstrict s) = (unstrict (fst (run_n es s)), snd (run_n es s)).
+Proof. exact strict_run_simulation. Qed.
+Print Assumptions C14_run_simulation.
+Theorem C14_run_prefix_simulation : forall es1 es2 s,
+  existsb strict_out (snd (run_n es1 s)) = false ->
+  fst (run_n (es1 ++ es2) (unstrict s)) = fst (run_n es2 (unstrict (fst (run_n es1 s)))) /\
+  firstn (List.length es1) (snd (run_n (es1 ++ es2) (unstrict s))) = snd (run_n es1 s).
+Proof. exact strict_run_prefix. Qed.
+Print Assumptions C14_run_prefix_simulation.
 
 (* third sentence: a fully initialised machine never sees a strict error, and stays initialised *)
 Theorem C14_initialized_machine_no_strict_error : forall e s,
